@@ -93,6 +93,8 @@ func (w *World) buildCallGraph() *CallGraph {
 		}
 		drained := sortedDrains(info, site.decl.Body)
 		collected := collectorRanges(info, site.decl.Body)
+		// map iterators (maps.Keys / Values / All) handed straight to slices.Sorted* lose their order
+		sortedIter := map[ast.Node]bool{}
 		ast.Inspect(site.decl.Body, func(x ast.Node) bool {
 			switch s := x.(type) {
 			case *ast.GoStmt:
@@ -159,6 +161,18 @@ func (w *World) buildCallGraph() *CallGraph {
 					return true
 				}
 				full := pkgPath + "." + name
+				if pkgPath == "slices" && (name == "Sorted" || name == "SortedFunc" || name == "SortedStableFunc") && len(s.Args) > 0 {
+					if inner, ok := s.Args[0].(*ast.CallExpr); ok {
+						sortedIter[inner] = true
+					}
+				}
+				if pkgPath == "maps" && (name == "Keys" || name == "Values" || name == "All") {
+					if sortedIter[s] {
+						n.Direct = append(n.Direct, EffectSite{"maprange-sorted", "maps." + name + " (sorted at once)", pos(s)})
+					} else {
+						n.Direct = append(n.Direct, EffectSite{"maprange", "maps." + name + " (iteration order of a map)", pos(s)})
+					}
+				}
 				if cls, ok := primitiveEffects[full]; ok {
 					// writes to the standard streams are not file-system effects
 					if cls == "fswrite" && recv != nil {
